@@ -587,6 +587,60 @@ fn check_point(cx: &mut Ctx, s: &dyn DynSampler, cached_spec: Option<f64>, ri: u
     Some((o.u, o.v, o.jacobian, kappa * cond.max(1.0)))
 }
 
+/// Masses the graph does not announce: the edge data may carry Some(mass) on an edge whose `is_massive` flag is false (the
+/// flag only shapes the tropical approximation).  V and the momentum identity are stated for the masses GIVEN with the call:
+/// v = sum_e x_e (m_e^2 + p_e^2) - u^T L^-1 u  (completing the square, spec/Symanzik.tla) and
+/// sum_e x_e (|q_e|^2 + m_e^2) = v (1 + |q|^2 / 2 lambda).
+fn extra_mass_check(cx: &mut Ctx, s: &dyn DynSampler, ri: usize, pt: &Point) {
+    let line = cx.line;
+    let (e, l, d) = (line.e, line.l, line.d);
+    let (sig, p) = &line.routings[ri];
+    let mass: Vec<f64> = (0..e).map(|i| if line.m[i] != 0.0 { line.m[i] } else { [1.5, 0.75, 2.0][(i + ri) % 3] }).collect();
+    let ed: EdgeData<f64> = (0..e).map(|i| (Some(mass[i]), p[i].clone())).collect();
+    let out = s.sample_f64(&pt.x, &ed, &Settings::new(None, true, true));
+    cx.sm.evaluations += 1;
+    let x = &pt.x;
+    let o = match (&out.outcome, out.obs.as_ref()) { (Outcome::Ok, Some(o)) => o, _ => return };
+    let meta = match o.meta.as_ref() { Some(m) => m, None => return };
+    let xres = match getlog(&out.log, "momtrop_feynman_parameter") { Some(v) => vf(v), None => return };
+    if xres.len() != e || !xres.iter().all(|v| v.is_normal()) || meta.l_matrix.len() != l { return; }
+    let lf = &meta.l_matrix;
+    if !(0..l).all(|i| lf[i][i] > 0.0) { return; }
+    let lsc: Vec<Vec<f64>> = (0..l).map(|i| (0..l).map(|j| lf[i][j] / (lf[i][i] * lf[j][j]).sqrt()).collect()).collect();
+    let cond = inv_f64(&lsc).map(|li| norm1(&lsc) * norm1(&li)).unwrap_or(f64::INFINITY);
+    if !(cond <= 1e6) { return; }
+    let a_res: f64 = (0..e).map(|i| xres[i] * (mass[i] * mass[i] + p[i].iter().map(|c| c * c).sum::<f64>())).sum();
+    let uv: Vec<Vec<f64>> = (0..l).map(|li| (0..d).map(|c| (0..e).map(|ee| sig[ee][li] as f64 * xres[ee] * p[ee][c]).sum()).collect()).collect();
+    let mut b_res = 0.0;
+    for l1 in 0..l { for l2 in 0..l { b_res += (0..d).map(|c| uv[l1][c] * uv[l2][c]).sum::<f64>() * meta.inverse[l1][l2]; } }
+    let v_spec = a_res - b_res;
+    let kappa = if v_spec > 0.0 { (a_res / v_spec).max(1.0) } else { f64::INFINITY };
+    if !(1e-12 * kappa * cond <= 0.01) { return; }
+    cx.sm.count("extra_mass_points");
+    let tol = 1e-12 * kappa * cond.max(1.0) + 1e-12;
+    if !close(o.v, v_spec, tol) {
+        cx.viol("C09", format!("with a mass on an edge not flagged massive: v = {} differs from sum_e x_e (m_e^2 + p_e^2) - u^T L^-1 u = {}", o.v, v_spec), ri, x, json!({"masses": mass, "extra_mass": true}));
+    }
+    let gauss_finite = meta.q_vectors.iter().flatten().chain(o.loop_momenta.iter().flatten()).all(|v| v.is_finite());
+    if gauss_finite && meta.lambda > 0.0 {
+        let q2: f64 = meta.q_vectors.iter().map(|q| q.iter().map(|c| c * c).sum::<f64>()).sum();
+        let mut lhs = 0.0;
+        for ee in 0..e {
+            let mut qe2 = 0.0;
+            for c in 0..d {
+                let mut qc = p[ee][c];
+                for li in 0..l { qc += sig[ee][li] as f64 * o.loop_momenta[li][c]; }
+                qe2 += qc * qc;
+            }
+            lhs += xres[ee] * (qe2 + mass[ee] * mass[ee]);
+        }
+        let rhs = o.v * (1.0 + q2 / (2.0 * meta.lambda));
+        if !close(lhs, rhs, 10.0 * tol * (1.0 + a_res / lhs.abs().max(1e-300))) {
+            cx.viol("C10", format!("with a mass on an edge not flagged massive: sum_e x_e(|q_e|^2+m_e^2) = {} differs from v(1+|q|^2/2lambda) = {}", lhs, rhs), ri, x, json!({"masses": mass, "extra_mass": true}));
+        }
+    }
+}
+
 /// C06 boundary part: at every reachable subgraph (steered prefix), coordinates at and around the exact
 /// cumulative boundaries and next to 1.
 fn boundary_checks(cx: &mut Ctx, s: &dyn DynSampler, rng: &mut impl Rng, max_subgraphs: usize) {
@@ -780,6 +834,9 @@ pub fn run(lines: &[Value], opts: &SampleOpts) -> Summary {
                     cx.viol("C09", format!("u, v, jacobian depend on the routing: routing {} gives ({}, {}, {}), routing {} gives ({}, {}, {})", ra, a.0, a.1, a.2, rb, b.0, b.1, b.2), *rb, &pt.x, json!({}));
                 }
             }
+        }
+        if line.m.iter().any(|&m| m == 0.0) {
+            for pt in pts.iter().skip(1).take(3) { for ri in 0..samplers.len().min(2) { extra_mass_check(&mut cx, samplers[ri].as_ref(), ri, pt); } }
         }
         // history: use - drop - rebuild.  A sampler with routing A is used and dropped; the next one (another routing of the same shape)
         // is built with its signature in the heap block the first one released, as a loop over graphs does naturally
